@@ -272,10 +272,7 @@ func (a *arrayObject) setOwnStr(name unistring.String, val Value, throw bool) bo
 				return false
 			}
 			l := a.val.runtime.toLengthUint32(val)
-			if cur := curStdArray(a.val, a); cur != nil {
-				return cur.setOwnStr(name, intToValue(int64(l)), throw)
-			}
-			return a.setLength(l, throw)
+			return setConvertedArrayLength(a.val, l, throw)
 		} else {
 			return a.baseObject.setOwnStr(name, val, throw)
 		}
@@ -404,6 +401,26 @@ func curStdArray(val *Object, a objectImpl) objectImpl {
 		}
 	}
 	return nil
+}
+
+// setConvertedArrayLength stores an already converted length into the current implementation of the array (the user
+// code run by the conversion may have switched it between the dense and the sparse representation). If that user code
+// made length read-only, an unchanged value is still accepted and any other value rejected, as in ArraySetLength
+// (OrdinarySet looked at [[Writable]] before the conversion).
+func setConvertedArrayLength(val *Object, l uint32, throw bool) bool {
+	switch a := val.self.(type) {
+	case *arrayObject:
+		if !a.lengthProp.writable && l == a.length {
+			return true
+		}
+		return a.setLength(l, throw)
+	case *sparseArrayObject:
+		if !a.lengthProp.writable && l == a.length {
+			return true
+		}
+		return a.setLength(l, throw)
+	}
+	return val.self.setOwnStr("length", intToValue(int64(l)), throw)
 }
 
 func (r *Runtime) defineArrayLength(prop *valueProperty, descr PropertyDescriptor, setter func(uint32, bool) bool, throw bool) bool {
